@@ -2,4 +2,4 @@ From Coq Require Import Extraction ExtrOcamlBasic ExtrOcamlString.
 From Oras Require Import Base.Prelude Model.Scopes Model.Challenge Model.AuthClient Model.Once Model.CacheSet Model.OnceSlot Model.AuthConc Model.Redirect.
 Extraction Language OCaml.
 Extraction "xc16.ml" clean_scopes clean_scopes_prefix clean_actions get_all_scopes parse_challenge get_param
-  run_model unjudged_header once_accepts set_accepts once_slot_final path_with paths_taken paths_closed do_request_rd parse_with lookup_cred keeps_authorization keeps_body.
+  run_model unjudged_header once_accepts set_accepts once_slot_final path_with paths_taken paths_closed paths_panic do_request_rd parse_with lookup_cred keeps_authorization keeps_body.
